@@ -37,6 +37,8 @@ def mk_op(name, wires):
 def mk_meas(kind, wires):
     if kind == "probs":
         return qp.probs(wires=wires) if wires else qp.probs()
+    if kind == "state":
+        return qp.state()
     if kind == "expZ":
         return qp.expval(qp.PauliZ(wires[0]))
     if kind == "expX":
@@ -69,7 +71,8 @@ def flat(res):
         for r in res:
             out.extend(flat(r))
         return out
-    return [np.asarray(res, dtype=float).ravel()]
+    a = np.asarray(res)
+    return [a.astype(complex).ravel() if np.iscomplexobj(a) else a.astype(float).ravel()]
 
 
 def one(c):
@@ -89,7 +92,9 @@ def one(c):
         # reference: the ORIGINAL circuit with the measurements transpile starts from (wire-less ones
         # completed with the device wires), on an unconstrained simulator
         d0 = qp.device("default.qubit")
-        ms0 = [(type(m)(wires=dev.wires) if (dev is not None and not m.wires) else m) for m in ms]
+        if any(k == "state" for k, _ in c["meas"]):
+            d0 = dev            # a state is returned in the wire order of the device that is given to transpile
+        ms0 = [(type(m)(wires=dev.wires) if (dev is not None and not m.wires and not isinstance(m, qp.measurements.StateMP)) else m) for m in ms]
         r0 = flat(qp.execute([qp.tape.QuantumScript(ops, ms0)], d0)[0])
         r1 = flat(fn(qp.execute([new], d0)))
         if len(r0) != len(r1) or any(a.shape != b.shape for a, b in zip(r0, r1)):
